@@ -100,6 +100,55 @@ def rule_R14(ctx, rep, config="c-lib"):
                                 continue
                             der.add(u.id)
                             work.append(u.id)
+                # the same through merges: a local that holds the pointer over several rounds of a loop (`states = VLO_BEGIN (..)' in the first round, used in all)
+                via_phi = set()
+                work = list(der)
+                while work:
+                    x = work.pop()
+                    for u in f.uses().get(x, []):
+                        if u.id in der or u.id in via_phi:
+                            continue
+                        if u.op == "phi" and u.ty.endswith("*"):
+                            via_phi.add(u.id)
+                            work.append(u.id)
+                        elif x in via_phi and u.op in ("getelementptr", "bitcast"):
+                            if u.op == "getelementptr" and strip_casts(f, u.d["base"]).get("v") != x:
+                                continue
+                            via_phi.add(u.id)
+                            work.append(u.id)
+                # a new load of the start whose value enters the same merges takes the pointer again
+                fresh = []
+                phi_in = set()
+                for d in via_phi:
+                    di_ = f.insts[d]
+                    if di_.op == "phi":
+                        for (v_, _) in di_.d["incoming"]:
+                            o_ = strip_casts(f, v_)
+                            if o_.get("k") == "i":
+                                phi_in.add(o_["v"])
+                for (b2, bc2) in bases:
+                    if bc2 != cont:
+                        continue
+                    d2, w2 = set([b2.id]), [b2.id]
+                    while w2:
+                        x2 = w2.pop()
+                        for u2 in f.uses().get(x2, []):
+                            if u2.op in ("getelementptr", "bitcast") and u2.id not in d2:
+                                d2.add(u2.id)
+                                w2.append(u2.id)
+                    if d2 & phi_in:
+                        fresh.append(b2)
+                for d in via_phi:
+                    for u in f.uses().get(d, []):
+                        is_use = (u.op == "load" and strip_casts(f, u.ops[0]).get("v") == d) or (u.op == "store" and strip_casts(f, u.ops[1]).get("v") == d)
+                        if not is_use:
+                            continue
+                        nptr += 1
+                        # the value can come from the load before the growth: the growth is followed by the use without any new load of the start in between
+                        if path_exists(f, g, u, fresh):
+                            rep.violation("R14", "%s/%s" % (f.name, cont), "a pointer into `%s' is kept in a local over an operation that may move the container and used "
+                                          "afterwards without being taken again: dangling after the realloc / segment change" % cont, where=u.where(),
+                                          witness=["pointer taken at " + b.where(), "container may move at " + g.where(), "stale use at " + u.where()])
                 # the pointer parked in a local cell (a field of a local struct) and read back after the growth
                 for d in der:
                     for S in f.uses().get(d, []):
